@@ -33,7 +33,7 @@ ASSUME = ["seeded programs need not be valid Fortran otherwise", "message wordin
 def plan(tier):
     if tier == "quick":
         return {"ncases": 240, "nshards": 16, "budget_s": 75, "floor": 1000, "stall_s": 60}
-    return {"ncases": 12000, "nshards": 16, "budget_s": 1800, "floor": 200000, "stall_s": 300}
+    return {"ncases": 12000, "nshards": 16, "budget_s": 1800, "floor": 40000, "stall_s": 300}
 
 
 def intrinsic_members():
@@ -136,6 +136,8 @@ def positions(w, rng, limit):
                             depth += 1
                         elif r == "close":
                             depth -= 1
+                            if depth == 0 and start is not None and lines[start].lstrip().lower().startswith("forall"):
+                                start = None  # FORALL is not a construct the server tracks (no scope is opened for it): outside "supported constructs"
                             if depth == 0 and start is not None:
                                 o, c = start, ln
                                 endl = s.eline
